@@ -28,6 +28,8 @@ func c02(c *Ctx) {
 	c02promise(c)
 	c02hot(c)
 	c02disabled(c)
+	c02construct(c)
+	c02latency(c)
 	c02users(c)
 	// the rolling window whose sums the decision is computed from (same structure rules as C16.R5)
 	c16windowAs(c, "C02.R8")
@@ -825,4 +827,236 @@ func c02siblings(c *Ctx) {
 			c.R.Undecided(rule, "core/load.(*adaptiveShedder).addFlying#average", "anchor resolves", "no store to avgFlying")
 		}
 	}
+}
+
+// c02construct (C02.R6b): an adaptive shedder is only ever built behind the enabled gate. Every
+// function of the module that allocates an adaptiveShedder does so on the enabled outcome of
+// `enabled.True()`, or is itself only called from such places (an ungated internal constructor
+// used by the shedder group hands out real shedders after load.Disable(), seed r3-C02-1).
+func c02construct(c *Ctx) {
+	rule := "C02.R6"
+	isGateCall := func(v ssa.Value) bool {
+		call, ok := v.(*ssa.Call)
+		if !ok {
+			return false
+		}
+		sc := call.Call.StaticCallee()
+		if sc == nil || sc.Name() != "True" || len(call.Call.Args) != 1 {
+			return false
+		}
+		var g *ssa.Global
+		if u, ok := call.Call.Args[0].(*ssa.UnOp); ok {
+			g, _ = u.X.(*ssa.Global)
+		}
+		return g != nil && g.Name() == "enabled" && g.Pkg != nil && g.Pkg.Pkg.Path() == mod+loadPkg
+	}
+	gated := func(b *ssa.BasicBlock) bool {
+		for d := b; d != nil; d = d.Idom() {
+			idom := d.Idom()
+			if idom == nil || len(d.Preds) != 1 || d.Preds[0] != idom || len(idom.Instrs) == 0 {
+				continue
+			}
+			ifi, ok := idom.Instrs[len(idom.Instrs)-1].(*ssa.If)
+			if !ok {
+				continue
+			}
+			cond, neg := ifi.Cond, false
+			if u, ok := cond.(*ssa.UnOp); ok && u.Op == token.NOT {
+				cond, neg = u.X, true
+			}
+			if isGateCall(cond) && (idom.Succs[0] == d) != neg {
+				return true
+			}
+		}
+		return false
+	}
+	// allocation sites
+	type site struct {
+		fn  *ssa.Function
+		blk *ssa.BasicBlock
+		pos token.Pos
+	}
+	var allocs []site
+	for _, pk := range c.P.Pkgs {
+		rel := strings.TrimPrefix(pk.PkgPath, mod)
+		for _, fn := range c.P.AllFuncs(rel) {
+			for _, b := range fn.Blocks {
+				for _, ins := range b.Instrs {
+					if a, ok := ins.(*ssa.Alloc); ok {
+						if pt, ok := a.Type().(*types.Pointer); ok && typeString(pt.Elem()) == loadPkg+".adaptiveShedder" {
+							allocs = append(allocs, site{fn, b, a.Pos()})
+						}
+					}
+				}
+			}
+		}
+	}
+	callers := func(f *ssa.Function) []site {
+		var out []site
+		for _, pk := range c.P.Pkgs {
+			rel := strings.TrimPrefix(pk.PkgPath, mod)
+			for _, fn := range c.P.AllFuncs(rel) {
+				for _, b := range fn.Blocks {
+					for _, ins := range b.Instrs {
+						switch x := ins.(type) {
+						case ssa.CallInstruction:
+							if x.Common().StaticCallee() == f {
+								out = append(out, site{fn, b, ins.Pos()})
+							}
+							for _, a := range x.Common().Args {
+								if a == ssa.Value(f) {
+									out = append(out, site{fn, b, ins.Pos()}) // passed as a value: treat as a call here
+								}
+							}
+						case *ssa.Store:
+							if x.Val == ssa.Value(f) {
+								out = append(out, site{fn, b, ins.Pos()})
+							}
+						}
+					}
+				}
+			}
+		}
+		return out
+	}
+	var bad []string
+	var check func(s site, d int, chain string)
+	seen := map[*ssa.Function]bool{}
+	check = func(s site, d int, chain string) {
+		if gated(s.blk) {
+			return
+		}
+		f := s.fn
+		for f.Parent() != nil {
+			f = f.Parent()
+		}
+		chain = f.RelString(f.Pkg.Pkg) + chain
+		if f.Object() != nil && f.Object().Exported() || d >= 3 {
+			bad = append(bad, fmt.Sprintf("%s: an adaptiveShedder is built without consulting the enabled flag (via %s): after load.Disable() this path still hands out a shedder that sheds", c.P.Pos(s.pos), chain))
+			return
+		}
+		if seen[f] {
+			return
+		}
+		seen[f] = true
+		cs := callers(f)
+		if len(cs) == 0 {
+			return // dead code
+		}
+		for _, cs1 := range cs {
+			check(cs1, d+1, " ← "+chain)
+		}
+	}
+	for _, a := range allocs {
+		check(a, 0, "")
+	}
+	sortStrings(bad)
+	o := c.R.Check(len(bad) == 0 && len(allocs) >= 1, rule, "core/load.adaptiveShedder#constructed-behind-gate", "every allocation of an adaptiveShedder in the module lies behind the enabled outcome of enabled.True(), in the allocating function or in every caller of it", "-", strings.Join(bad, "; "), bad, len(allocs))
+	o.Sites = len(allocs)
+}
+
+// c02latency (C02.R10): the latency a finished request contributes to the capacity estimate is its
+// duration in milliseconds rounded *up*. The estimate multiplies the peak pass count by the minimum
+// average latency; a request quicker than a millisecond that is recorded as 0 (truncation:
+// Duration.Milliseconds(), integer division) drives the minimum — and with it the estimate for the
+// whole window — to 0, so the shedder drops at 2 requests in flight whatever the real capacity is
+// (seed r3-C02-3). Accepted closed forms: ceil(float(d)/float(ms)) and (d + ms − 1)/ms.
+func c02latency(c *Ctx) {
+	rule := "C02.R10"
+	f := c.fn(rule, loadPkg, "(*promise).Pass")
+	if f == nil {
+		return
+	}
+	isMs := func(v ssa.Value, want int64) bool {
+		for {
+			cv, ok := v.(*ssa.Convert)
+			if !ok {
+				break
+			}
+			v = cv.X
+		}
+		k, ok := v.(*ssa.Const)
+		if !ok || k.Value == nil {
+			return false
+		}
+		if fv, ok := constant.Float64Val(constant.ToFloat(k.Value)); ok {
+			return fv == float64(want)
+		}
+		return false
+	}
+	isElapsed := func(v ssa.Value) bool {
+		for {
+			cv, ok := v.(*ssa.Convert)
+			if !ok {
+				break
+			}
+			v = cv.X
+		}
+		call, ok := v.(*ssa.Call)
+		if !ok {
+			return false
+		}
+		n := calleeName(call.Common())
+		return strings.HasSuffix(n, "timex.Since") || strings.HasSuffix(n, "time.Since") || strings.HasSuffix(n, ".Sub")
+	}
+	var roundsUp func(v ssa.Value, d int) (bool, string)
+	roundsUp = func(v ssa.Value, d int) (bool, string) {
+		if d > 6 {
+			return false, "derivation too deep"
+		}
+		switch x := v.(type) {
+		case *ssa.Convert:
+			return roundsUp(x.X, d+1)
+		case *ssa.Call:
+			n := calleeName(x.Common())
+			if strings.HasSuffix(n, "math.Ceil") && len(x.Call.Args) == 1 {
+				q, ok := x.Call.Args[0].(*ssa.BinOp)
+				if ok && q.Op == token.QUO && isElapsed(q.X) && isMs(q.Y, 1e6) {
+					if bt, ok := q.Type().Underlying().(*types.Basic); ok && bt.Info()&types.IsFloat != 0 {
+						return true, ""
+					}
+				}
+				return false, "math.Ceil is not applied to the floating-point quotient elapsed/millisecond"
+			}
+			return false, "the recorded value is the result of " + n + ", which does not round a sub-millisecond duration up to 1"
+		case *ssa.BinOp:
+			if x.Op == token.QUO && isMs(x.Y, 1e6) {
+				if add, ok := x.X.(*ssa.BinOp); ok && add.Op == token.ADD {
+					if (isElapsed(add.X) && isMs(add.Y, 1e6-1)) || (isElapsed(add.Y) && isMs(add.X, 1e6-1)) {
+						return true, ""
+					}
+				}
+				return false, "integer division of the elapsed time by a millisecond truncates: a request quicker than 1ms is recorded as 0"
+			}
+		}
+		return false, "the recorded latency is not the elapsed time rounded up to milliseconds"
+	}
+	n := 0
+	var bad []string
+	for _, b := range f.Blocks {
+		for _, ins := range b.Instrs {
+			call, ok := ins.(ssa.CallInstruction)
+			if !ok {
+				continue
+			}
+			cc := call.Common()
+			sc := cc.StaticCallee()
+			if sc == nil || (sc.Name() != "Add" && !strings.HasPrefix(sc.Name(), "Add[")) || len(cc.Args) != 2 {
+				continue
+			}
+			u, ok := cc.Args[0].(*ssa.UnOp)
+			if !ok {
+				continue
+			}
+			fa, ok := u.X.(*ssa.FieldAddr)
+			if !ok || fieldNameOf(fa) != "rtCounter" {
+				continue
+			}
+			n++
+			if ok, why := roundsUp(cc.Args[1], 0); !ok {
+				bad = append(bad, c.P.Pos(ins.Pos())+": "+why)
+			}
+		}
+	}
+	c.R.Check(len(bad) == 0 && n == 1, rule, "core/load.(*promise).Pass#latency", "the value added to the latency window is the elapsed time in milliseconds rounded up (never 0 for a request that took time)", posOf(c, f), strings.Join(bad, "; ")+map[bool]string{true: "", false: fmt.Sprintf(" (%d rtCounter.Add sites)", n)}[n == 1], bad, n)
 }
